@@ -130,7 +130,7 @@ func runC27(c *core.Ctx) error {
 		res, err := c.TLC(core.TLCOpts{Module: "MC_Codec", Cfg: "MC_Codec.cfg", Workers: 8, Timeout: 20 * time.Minute,
 			Files: map[string][]byte{"SchemaData.tla": orig.SchemaModule(tops)}, OnEmit: onEmit,
 			Consts: map[string]string{"SANITY": "FALSE", "MAXLEN": "2", "LONGSTR": "{}", "K": strconv.Itoa(c.Pick(2, 2)), "KMUT": "0",
-				"KJSON": "0", "KRE": "0", "KMUT2": "0", "KFN": "0", "EDGES": "FALSE"}})
+				"KJSON": "0", "KRE": "0", "KMUT2": "0", "KFN": "0", "KBAD": "0", "EDGES": "FALSE"}})
 		orig.Close()
 		mig.Close()
 		if err != nil {
